@@ -442,6 +442,10 @@ package mcap
         && forall(k, 0, len(w.AttachmentIndexes), w.AttachmentIndexes[k] != nil)
         && forall(k, 0, len(w.MetadataIndexes), w.MetadataIndexes[k] != nil)
         && forall(k, 0, 65536, in(w.channels, k) ==> w.channels[k] != nil)
+    spec statsTimeInv(w) = w.Statistics.MessageCount == 0 ==> w.Statistics.MessageStartTime == 0 && w.Statistics.MessageEndTime == 0
+    spec sameMessageStats(w, s0, e0, n0) = w.Statistics.MessageStartTime == s0 && w.Statistics.MessageEndTime == e0 && w.Statistics.MessageCount == n0
+    spec countsInv(w) = w.Statistics.SchemaCount == uint16(len(w.schemas)) && w.Statistics.ChannelCount == uint32(len(w.channels))
+        && w.Statistics.ChunkCount == uint32(len(w.ChunkIndexes)) && w.Statistics.MetadataCount == uint32(len(w.MetadataIndexes))
     spec okSink(w) = !failed(sink(w))
     spec okSinks(w) = !failed(sink(w)) && (w.opts.Chunked && !w.closed ==> !failed(w.compressedWriter.w))
 @*/
@@ -577,6 +581,9 @@ package mcap
     ensures wfWriter(w) && sink(w) == old(sink(w)) && w.opts == old(w.opts) && w.closed == old(w.closed)
     ensures old(wfLists(w)) ==> wfLists(w)
     ensures old(wfIndexes(w)) ==> wfIndexes(w)
+    ensures [counts-inv] {C08} old(countsInv(w)) ==> countsInv(w)
+    ensures [schema-count] {C08} w.Statistics.SchemaCount == ite(old(in(w.schemas, s.ID)), old(w.Statistics.SchemaCount), uint16(old(w.Statistics.SchemaCount) + 1)) && in(w.schemas, s.ID)
+    ensures [schema-others] {C08} w.Statistics == old(w.Statistics) && w.Statistics.ChannelCount == old(w.Statistics.ChannelCount) && w.Statistics.MessageCount == old(w.Statistics.MessageCount) && w.Statistics.ChunkCount == old(w.Statistics.ChunkCount) && w.Statistics.MetadataCount == old(w.Statistics.MetadataCount) && w.Statistics.AttachmentCount == old(w.Statistics.AttachmentCount)
 @*/
 /*@ func (*Writer).AddChannel
     safety C14
@@ -585,6 +592,9 @@ package mcap
     ensures wfWriter(w) && sink(w) == old(sink(w)) && w.opts == old(w.opts) && w.closed == old(w.closed)
     ensures old(wfLists(w)) ==> wfLists(w)
     ensures old(wfIndexes(w)) ==> wfIndexes(w)
+    ensures [counts-inv] {C08} old(countsInv(w)) ==> countsInv(w)
+    ensures [channel-count] {C08} w.Statistics.ChannelCount == ite(old(in(w.channels, c.ID)), old(w.Statistics.ChannelCount), uint32(old(w.Statistics.ChannelCount) + 1)) && in(w.channels, c.ID)
+    ensures [channel-others] {C08} w.Statistics == old(w.Statistics) && w.Statistics.SchemaCount == old(w.Statistics.SchemaCount) && w.Statistics.MessageCount == old(w.Statistics.MessageCount) && w.Statistics.ChunkCount == old(w.Statistics.ChunkCount) && w.Statistics.MetadataCount == old(w.Statistics.MetadataCount) && w.Statistics.AttachmentCount == old(w.Statistics.AttachmentCount)
 @*/
 
 /*@ func (*Writer).WriteSchema
@@ -596,6 +606,7 @@ package mcap
     ensures old(wfLists(w)) ==> wfLists(w)
     ensures old(wfIndexes(w)) ==> wfIndexes(w)
     ensures failed(sink(w)) ==> err != nil
+    ensures [counts-inv] {C08} old(countsInv(w)) ==> countsInv(w)
     ensures w.opts.Chunked && !old(w.closed) ==> (failed(w.compressedWriter.w) ==> err != nil)
 @*/
 
@@ -608,6 +619,7 @@ package mcap
     ensures old(wfLists(w)) ==> wfLists(w)
     ensures old(wfIndexes(w)) ==> wfIndexes(w)
     ensures failed(sink(w)) ==> r0 != nil
+    ensures [counts-inv] {C08} old(countsInv(w)) ==> countsInv(w)
     ensures w.opts.Chunked && !old(w.closed) ==> (failed(w.compressedWriter.w) ==> r0 != nil)
 @*/
 
@@ -637,6 +649,8 @@ package mcap
     writesto sink(w)
     ensures wfWriter(w) && sink(w) == old(sink(w))
     ensures failed(sink(w)) ==> r0 != nil
+    ensures [counts-inv] {C08} old(countsInv(w)) ==> countsInv(w)
+    ensures [metadata-count] {C08} r0 == nil ==> w.Statistics == old(w.Statistics) && w.Statistics.MetadataCount == uint32(old(w.Statistics.MetadataCount) + 1) && len(w.MetadataIndexes) == old(len(w.MetadataIndexes)) + 1
 @*/
 
 /*@ func (*Writer).WriteChunkIndex
@@ -656,9 +670,27 @@ package mcap
     writesto sink(w)
     ensures wfWriter(w) && sink(w) == old(sink(w)) && w.opts == old(w.opts)
     ensures failed(sink(w)) ==> r0 != nil
+@*/
+
+/*@ func (*Writer).writeChunkWithIndexes
+    tags C14
+    safety C14
+    requires wfWriter(w) && c != nil && okSink(w)
+    requires forall(k, 0, len(messageIndexes), wfMsgIndex(messageIndexes[k]))
+    writesto sink(w)
+    ensures wfWriter(w) && sink(w) == old(sink(w)) && w.opts == old(w.opts)
+    ensures failed(sink(w)) ==> r0 != nil
+    ensures [counts-inv] {C08} old(countsInv(w)) ==> countsInv(w)
+    ensures [chunk-keeps-message-stats] {C08} w.Statistics == old(w.Statistics) && w.Statistics.MessageCount == old(w.Statistics.MessageCount)
+        && (!updateTimeRange ==> w.Statistics.MessageStartTime == old(w.Statistics.MessageStartTime) && w.Statistics.MessageEndTime == old(w.Statistics.MessageEndTime))
+    ensures [chunk-keeps-counters] {C08} w.Statistics.ChannelMessageCounts == old(w.Statistics.ChannelMessageCounts) && forall(k, 0, 65536, w.Statistics.ChannelMessageCounts[k] == old(w.Statistics.ChannelMessageCounts[k]))
+        && w.Statistics.SchemaCount == old(w.Statistics.SchemaCount) && w.Statistics.ChannelCount == old(w.Statistics.ChannelCount) && w.Statistics.AttachmentCount == old(w.Statistics.AttachmentCount) && w.Statistics.MetadataCount == old(w.Statistics.MetadataCount)
+    ensures [chunk-count] {C08} r0 == nil && c.UncompressedSize > 0 ==> w.Statistics.ChunkCount == uint32(old(w.Statistics.ChunkCount) + 1) && len(w.ChunkIndexes) == old(len(w.ChunkIndexes)) + 1
     ensures old(wfLists(w)) ==> wfLists(w)
     ensures old(wfIndexes(w)) ==> wfIndexes(w)
     loop 1 invariant wfWriter(w) && sink(w) == old(sink(w)) && w.opts == old(w.opts) && !failed(sink(w)) && messageIndexOffsets != nil
+    loop 1 invariant [counters-kept] {C08} w.Statistics == old(w.Statistics) && w.Statistics.ChannelMessageCounts == old(w.Statistics.ChannelMessageCounts)
+        && forall(k, 0, 65536, w.Statistics.ChannelMessageCounts[k] == old(w.Statistics.ChannelMessageCounts[k]))
 @*/
 
 /*@ func (*Writer).flushActiveChunk
@@ -669,6 +701,10 @@ package mcap
     ensures wfWriter(w) && wfIndexes(w) && sink(w) == old(sink(w)) && w.opts == old(w.opts)
     ensures old(wfLists(w)) ==> wfLists(w)
     ensures failed(sink(w)) ==> r0 != nil
+    ensures [counts-inv] {C08} old(countsInv(w)) ==> countsInv(w)
+    ensures [flush-keeps-message-stats] {C08} w.Statistics == old(w.Statistics) && sameMessageStats(w, old(w.Statistics.MessageStartTime), old(w.Statistics.MessageEndTime), old(w.Statistics.MessageCount))
+    ensures [flush-keeps-counters] {C08} w.Statistics.ChannelMessageCounts == old(w.Statistics.ChannelMessageCounts) && forall(k, 0, 65536, w.Statistics.ChannelMessageCounts[k] == old(w.Statistics.ChannelMessageCounts[k]))
+        && w.Statistics.SchemaCount == old(w.Statistics.SchemaCount) && w.Statistics.ChannelCount == old(w.Statistics.ChannelCount) && w.Statistics.AttachmentCount == old(w.Statistics.AttachmentCount) && w.Statistics.MetadataCount == old(w.Statistics.MetadataCount)
     loop 1 invariant wfWriter(w) && wfIndexes(w) && sink(w) == old(sink(w)) && w.opts == old(w.opts) && okSinks(w)
         && forall(k, 0, len(messageIndexes), wfMsgIndex(messageIndexes[k])) && (old(wfLists(w)) ==> wfLists(w))
     loop 2 invariant wfWriter(w) && wfIndexes(w) && sink(w) == old(sink(w)) && w.opts == old(w.opts) && okSinks(w) && (old(wfLists(w)) ==> wfLists(w))
@@ -678,9 +714,18 @@ package mcap
     tags C14
     safety C14
     requires wfWriter(w) && wfIndexes(w) && m != nil && okSinks(w)
+    requires statsTimeInv(w) && w.Statistics.MessageCount < 18446744073709551615
     writesto sink(w), w.compressedWriter.w
     ensures wfWriter(w) && wfIndexes(w) && sink(w) == old(sink(w)) && w.opts == old(w.opts)
     ensures failed(sink(w)) ==> r0 != nil
+    ensures [counts-inv] {C08} old(countsInv(w)) ==> countsInv(w)
+    ensures [stats-inv] {C08} r0 == nil ==> statsTimeInv(w) && w.Statistics == old(w.Statistics)
+    ensures [message-count] {C08} r0 == nil ==> w.Statistics.MessageCount == old(w.Statistics.MessageCount) + 1
+    ensures [start-time] {C08} r0 == nil ==> w.Statistics.MessageStartTime == ite(old(w.Statistics.MessageCount) == 0, m.LogTime, umin(old(w.Statistics.MessageStartTime), m.LogTime))
+    ensures [end-time] {C08} r0 == nil ==> w.Statistics.MessageEndTime == ite(old(w.Statistics.MessageCount) == 0, m.LogTime, umax(old(w.Statistics.MessageEndTime), m.LogTime))
+    ensures [channel-count] {C08} r0 == nil ==> w.Statistics.ChannelMessageCounts[m.ChannelID] == wrap64(old(w.Statistics.ChannelMessageCounts[m.ChannelID]) + 1)
+    ensures [other-channels] {C08} r0 == nil ==> forall(k, 0, 65536, k != m.ChannelID ==> w.Statistics.ChannelMessageCounts[k] == old(w.Statistics.ChannelMessageCounts[k]))
+    ensures [other-counters] {C08} r0 == nil ==> w.Statistics.SchemaCount == old(w.Statistics.SchemaCount) && w.Statistics.ChannelCount == old(w.Statistics.ChannelCount) && w.Statistics.AttachmentCount == old(w.Statistics.AttachmentCount) && w.Statistics.MetadataCount == old(w.Statistics.MetadataCount)
 @*/
 
 /*@ func newCRCWriter
